@@ -1,2 +1,295 @@
-(* placeholder while the machinery is being built *)
-From LC Require Import CloneDefs.
+(* Properties_C11.v -- C11 "clone() is a faithful, independent deep copy": STATEMENTS ONLY.
+   Model: CloneDefs.v (identity-tagged entity trees, faithful transcription of the six clone() functions and of the
+   index-stack re-creation of equivalences).  Proofs: CloneProofs.v.  `all_fixed` = the code with fixes/C11-*.diff;
+   `pinned` = the tree before them; `original` = additionally before 84a9d17 (Reset order). *)
+From Coq Require Import List String ZArith Bool Arith Lia.
+From LC Require Import CloneDefs CloneProofs.
+Import ListNotations.
+Local Open Scope string_scope.
+Local Open Scope nat_scope.
+Local Open Scope list_scope.
+
+(* ================================================================= 1. content is preserved ======================= *)
+(* content_* = what a serialisation shows (no oid, no parent): all attributes, a reset's order AND whether it is set,
+   encapsulation ids, import url/id/reference, which imported entities share an import element (canon), and, for a
+   reset listed in a component, WHICH variable of that component it refers to. *)
+
+Theorem C11_clone_content_isrc : forall n i, content_isrc (fst (clone_isrc n i)) = content_isrc i.
+Proof. exact CloneProofs.clone_isrc_content. Qed.
+Print Assumptions C11_clone_content_isrc.
+
+(* wf_units: every stored prefix is a fixed point of Units::addUnit's normalisation (established by every addUnit:
+   C11_prefix_normalisation_idempotent) *)
+Theorem C11_clone_content_units : forall fx n u, wf_units u -> content_units (fst (clone_units fx n u)) = content_units u.
+Proof. exact CloneProofs.clone_units_content. Qed.
+Print Assumptions C11_clone_content_units.
+
+Theorem C11_prefix_normalisation_idempotent : forall p, norm_prefix (norm_prefix p) = norm_prefix p.
+Proof. exact CloneProofs.norm_prefix_idem. Qed.
+Print Assumptions C11_prefix_normalisation_idempotent.
+
+Theorem C11_clone_content_variable : forall fx n v, content_variable (fst (clone_variable fx n v)) = content_variable v.
+Proof. exact CloneProofs.clone_variable_content. Qed.
+Print Assumptions C11_clone_content_variable.
+
+(* wf_reset: an unset order is 0 (Reset::create / removeOrder) *)
+Theorem C11_clone_content_reset : forall fx n r,
+  fx_order fx = true -> wf_reset r -> content_reset [] (fst (clone_reset fx n r)) = content_reset [] r.
+Proof. exact CloneProofs.clone_reset_content_lone. Qed.
+Print Assumptions C11_clone_content_reset.
+
+Theorem C11_clone_reset_order : forall fx n r, fx_order fx = true -> r_order_set (fst (clone_reset fx n r)) = r_order_set r.
+Proof. exact CloneProofs.clone_reset_order_set. Qed.
+Print Assumptions C11_clone_reset_order.
+
+(* before 84a9d17: the clone of a reset without order has its order set *)
+Theorem C11_clone_reset_order_refuted : exists n r, r_order_set (fst (clone_reset original n r)) <> r_order_set r.
+Proof.
+  exists 1, {| r_oid := 0; r_parent := None; r_id := ""; r_order := 0%Z; r_order_set := false; r_var := None; r_test := None;
+               r_tv := ""; r_tvid := ""; r_rv := ""; r_rvid := "" |}. vm_compute. discriminate.
+Qed.
+Print Assumptions C11_clone_reset_order_refuted.
+
+(* wf_comp: in every component of the tree the variables are distinct objects, each reset's variable record agrees in
+   name with the component variable of the same identity, unset orders are 0; coherent: import-source records with one
+   identity agree on url and id *)
+Theorem C11_clone_content_component : forall n c,
+  coherent (comp_imps c) -> wf_comp c ->
+  content_component (fst (clone_component all_fixed n c)) = content_component c.
+Proof.
+  intros n c Hc Hw. unfold content_component. f_equal.
+  - apply CloneProofs.clone_component_content; try reflexivity; assumption.
+  - apply CloneProofs.clone_component_pattern. reflexivity.
+Qed.
+Print Assumptions C11_clone_content_component.
+
+(* pinned tree: the encapsulation id is lost *)
+Theorem C11_clone_content_component_refuted : exists n c,
+  coherent (comp_imps c) /\ wf_comp c /\ content_component (fst (clone_component pinned n c)) <> content_component c.
+Proof.
+  exists 1, (Comp 0 None "" "c" "enc1" "" None "" [] [] []). split; [intros i j []|]. split.
+  - repeat constructor.
+  - vm_compute. discriminate.
+Qed.
+Print Assumptions C11_clone_content_component_refuted.
+
+(* models: structure ... *)
+Theorem C11_clone_content_model_struct : forall ext n m m' n',
+  wf_model m -> clone_model all_fixed ext n m = Some (m', n') -> content_model_struct m' = content_model_struct m.
+Proof. intros ext n m m' n'. apply CloneProofs.clone_model_struct; reflexivity. Qed.
+Print Assumptions C11_clone_content_model_struct.
+
+(* ... and every equivalence between variables of the model, as (index stack, index stack, mapping id, connection id);
+   wf_eqs: component variables are distinct objects; equivalences inside the model are two-way, never reflexive, and a
+   variable lists another at most once (what Variable::addEquivalence maintains).  Equivalences that leave the model
+   are not part of `model_eqvs`: a clone cannot hold them without changing objects outside itself. *)
+Theorem C11_clone_content_model_eqvs : forall ext n m m' n',
+  wf_eqs m -> clone_model all_fixed ext n m = Some (m', n') ->
+  forall x, In x (model_eqvs true m') <-> In x (model_eqvs true m).
+Proof. intros ext n m m' n'. apply CloneProofs.clone_model_eqvs_gen; reflexivity. Qed.
+Print Assumptions C11_clone_content_model_eqvs.
+
+(* the repaired Model::clone returns for every model (pinned tree: C11_clone_model_crash_refuted) *)
+Theorem C11_clone_model_total : forall ext n m, exists r, clone_model all_fixed ext n m = Some r.
+Proof. intros ext n m. apply CloneProofs.clone_model_total. reflexivity. Qed.
+Print Assumptions C11_clone_model_total.
+
+(* witnesses used below *)
+Definition wx : variable := {| v_oid := 3; v_parent := Some 1; v_id := ""; v_name := "x"; v_init := ""; v_iface := "";
+                               v_units := None; v_eqs := [{| e_var := 4; e_mapid := "map"; e_connid := "conn" |}] |}.
+Definition wy : variable := {| v_oid := 4; v_parent := Some 2; v_id := ""; v_name := "y"; v_init := ""; v_iface := "";
+                               v_units := None; v_eqs := [{| e_var := 3; e_mapid := "map"; e_connid := "conn" |}] |}.
+Definition wm : model := {| m_oid := 0; m_id := ""; m_name := "m"; m_encid := ""; m_units := [];
+                            m_comps := [Comp 1 (Some 0) "" "a" "" "" None "" [wx] [] []; Comp 2 (Some 0) "" "b" "" "" None "" [wy] [] []] |}.
+
+Lemma wm_wf_eqs : wf_eqs wm.
+Proof.
+  split; [|split; [|split]].
+  - vm_compute. repeat constructor; cbn; intuition discriminate.
+  - intros k t (v & e & Hv & He & Hi). cbn in Hv. destruct Hv as [Hv|[Hv|[]]]; injection Hv as <- <-; cbn in He;
+      destruct He as [<-|[]]; vm_compute in Hi; injection Hi as <-.
+    + exists wy, {| e_var := 3; e_mapid := "map"; e_connid := "conn" |}. vm_compute. intuition.
+    + exists wx, {| e_var := 4; e_mapid := "map"; e_connid := "conn" |}. vm_compute. intuition.
+  - intros pv e Hpv He. cbn in Hpv. destruct Hpv as [<-|[<-|[]]]; cbn in He; destruct He as [<-|[]]; cbn; discriminate.
+  - intros pv Hpv. cbn in Hpv. destruct Hpv as [<-|[<-|[]]]; cbn; repeat constructor; intros [].
+Qed.
+
+(* non-vacuity of C11_clone_content_model_eqvs: a model with an equivalence carrying ids *)
+Example C11_clone_content_model_eqvs_example :
+  wf_eqs wm /\ model_eqvs true wm <> [] /\
+  exists m' n', clone_model all_fixed no_ext 5 wm = Some (m', n') /\ model_eqvs true m' = model_eqvs true wm.
+Proof.
+  split; [exact wm_wf_eqs|]. split; [vm_compute; discriminate|].
+  destruct (clone_model all_fixed no_ext 5 wm) as [[m' n']|] eqn:E; [|vm_compute in E; discriminate].
+  exists m', n'. split; [reflexivity|]. vm_compute in E. injection E as <- _. vm_compute. reflexivity.
+Qed.
+Print Assumptions C11_clone_content_model_eqvs_example.
+
+(* pinned tree (row 36 of DESIGN.md 5): mapping and connection ids are lost ... *)
+Theorem C11_clone_eqv_ids_refuted : exists ext n m m' n',
+  wf_eqs m /\ clone_model pinned ext n m = Some (m', n') /\ exists x, In x (model_eqvs true m) /\ ~ In x (model_eqvs true m').
+Proof.
+  exists no_ext, 5, wm.
+  destruct (clone_model pinned no_ext 5 wm) as [[m' n']|] eqn:E; [|vm_compute in E; discriminate].
+  exists m', n'. split; [exact wm_wf_eqs|]. split; [reflexivity|]. vm_compute in E. injection E as <- _.
+  exists ([0; 0], [1; 0], "map", "conn"). split; [vm_compute; left; reflexivity|]. vm_compute. intuition discriminate.
+Qed.
+Print Assumptions C11_clone_eqv_ids_refuted.
+
+(* ... but WHICH variables are equivalent is preserved even there (any flags that skip external targets) *)
+Theorem C11_clone_eqv_partial : forall fx ext n m m' n',
+  fx_ext fx = true -> wf_eqs m -> clone_model fx ext n m = Some (m', n') ->
+  forall x, In x (model_eqvs false m') <-> In x (model_eqvs false m).
+Proof. intros fx ext n m m' n' Hfx. apply CloneProofs.clone_model_eqvs_gen; [exact Hfx | discriminate]. Qed.
+Print Assumptions C11_clone_eqv_partial.
+
+(* pinned tree (row 27): a variable equivalent to a parent-less variable makes Model::clone() crash (None) *)
+Theorem C11_clone_model_crash_refuted : exists n m, clone_model pinned no_ext n m = None.
+Proof.
+  exists 5, {| m_oid := 0; m_id := ""; m_name := "m"; m_encid := ""; m_units := [];
+               m_comps := [Comp 1 (Some 0) "" "a" "" "" None ""
+                            [{| v_oid := 3; v_parent := Some 1; v_id := ""; v_name := "x"; v_init := ""; v_iface := "";
+                                v_units := None; v_eqs := [{| e_var := 9; e_mapid := ""; e_connid := "" |}] |}] [] []] |}.
+  vm_compute. reflexivity.
+Qed.
+Print Assumptions C11_clone_model_crash_refuted.
+
+(* pinned tree: an equivalent variable under ANOTHER root (index stack (0,1) there) wires the clone's x to the clone's
+   own variable at (0,1): the clone has an equivalence the original does not have *)
+Theorem C11_clone_foreign_equivalence_refuted : exists ext n m m' n',
+  clone_model pinned ext n m = Some (m', n') /\ model_eqvs false m = [] /\ model_eqvs false m' <> [].
+Proof.
+  exists (fun _ => EAt [0; 1]), 5,
+    {| m_oid := 0; m_id := ""; m_name := "m"; m_encid := ""; m_units := [];
+       m_comps := [Comp 1 (Some 0) "" "a" "" "" None ""
+                    [{| v_oid := 3; v_parent := Some 1; v_id := ""; v_name := "x"; v_init := ""; v_iface := "";
+                        v_units := None; v_eqs := [{| e_var := 9; e_mapid := ""; e_connid := "" |}] |};
+                     {| v_oid := 4; v_parent := Some 1; v_id := ""; v_name := "y"; v_init := ""; v_iface := "";
+                        v_units := None; v_eqs := [] |}] [] []] |}.
+  match goal with |- context [clone_model ?a ?b ?c ?d] => destruct (clone_model a b c d) as [[m' n']|] eqn:E end;
+    [|vm_compute in E; discriminate].
+  exists m', n'. split; [reflexivity|]. split; [vm_compute; reflexivity|]. vm_compute in E. injection E as <- _. vm_compute. discriminate.
+Qed.
+Print Assumptions C11_clone_foreign_equivalence_refuted.
+
+(* ================================================================= 2. the clone has no parent ==================== *)
+
+Theorem C11_clone_parentless : forall fx n,
+  (forall u, u_parent (fst (clone_units fx n u)) = None) /\ (forall v, v_parent (fst (clone_variable fx n v)) = None) /\
+  (forall r, r_parent (fst (clone_reset fx n r)) = None) /\ (forall c, c_parent (fst (clone_component fx n c)) = None).
+Proof.
+  intros fx n. repeat split; intros x;
+    [apply CloneProofs.clone_units_parent | apply CloneProofs.clone_variable_parent | apply CloneProofs.clone_reset_parent |
+     apply CloneProofs.clone_component_parent].
+Qed.
+Print Assumptions C11_clone_parentless.
+(* (a model has no parent field at all; the children of a cloned component point at the clone:) *)
+Theorem C11_clone_children_parented : forall n c c' n', clone_component all_fixed n c = (c', n') ->
+  Forall (fun v => v_parent v = Some (c_oid c')) (c_vars c') /\ Forall (fun r => r_parent r = Some (c_oid c')) (c_resets c') /\
+  Forall (fun k => c_parent k = Some (c_oid c')) (c_kids c').
+Proof. intros n c c' n'. apply CloneProofs.clone_component_children. reflexivity. Qed.
+Print Assumptions C11_clone_children_parented.
+
+(* ================================================================= 3. fresh identities ========================== *)
+(* every object reachable from the clone (import sources, Units objects of variables, variables held by resets
+   included) was created by this clone() call: its identity lies in [n, n') *)
+
+Theorem C11_clone_fresh : forall n,
+  (forall u u' n', clone_units all_fixed n u = (u', n') -> rng n n' (units_oids u')) /\
+  (forall v v' n', clone_variable all_fixed n v = (v', n') -> rng n n' (var_oids v')) /\
+  (forall r r' n', clone_reset all_fixed n r = (r', n') -> rng n n' (reset_oids r')) /\
+  (forall c c' n', clone_component all_fixed n c = (c', n') -> rng n n' (comp_oids c')) /\
+  (forall ext m m' n', clone_model all_fixed ext n m = Some (m', n') -> rng n n' (model_oids m')).
+Proof.
+  intros n. repeat split.
+  - intros u u' n' H. apply CloneProofs.clone_units_fresh in H; [tauto | reflexivity].
+  - intros v v' n' H. apply CloneProofs.clone_variable_fresh in H; [tauto | reflexivity].
+  - intros r r' n' H. apply CloneProofs.clone_reset_fresh in H; [tauto | reflexivity].
+  - intros c c' n' H. apply CloneProofs.clone_component_fresh in H; [tauto | reflexivity].
+  - intros ext m m' n' H. apply CloneProofs.clone_model_fresh in H; [tauto | reflexivity].
+Qed.
+Print Assumptions C11_clone_fresh.
+
+(* hence disjoint from any object that existed before the call *)
+Theorem C11_clone_disjoint : forall n n' (old new : list oid), rng 0 n old -> rng n n' new -> forall o, In o old -> ~ In o new.
+Proof.
+  intros n n' old new Ho Hn o H1 H2. unfold rng in *. rewrite Forall_forall in Ho, Hn. specialize (Ho o H1). specialize (Hn o H2). lia.
+Qed.
+Print Assumptions C11_clone_disjoint.
+
+(* ================================================================= 4. independence ============================== *)
+(* mutation = one API call on one object (41 constructors: every attribute setter of every class, add / remove of every
+   kind of child, re-pointing of units / reset variables / import sources).  It acts on every record that stands for
+   the object.  If the object is not among those reachable from y, y is unchanged -- as a value, hence in content. *)
+
+Theorem C11_independent : forall mu,
+  (forall i, ~ In (mut_target mu) [is_oid i] -> apply_isrc mu i = i) /\
+  (forall u, ~ In (mut_target mu) (units_oids u) -> apply_units mu u = u) /\
+  (forall v, ~ In (mut_target mu) (var_oids v) -> apply_variable mu v = v) /\
+  (forall r, ~ In (mut_target mu) (reset_oids r) -> apply_reset mu r = r) /\
+  (forall c, ~ In (mut_target mu) (comp_oids c) -> apply_component mu c = c) /\
+  (forall m, ~ In (mut_target mu) (model_oids m) -> apply_model mu m = m).
+Proof.
+  intros mu. repeat split; intros x H;
+    [apply CloneProofs.independent_isrc | apply CloneProofs.independent_units | apply CloneProofs.independent_variable |
+     apply CloneProofs.independent_reset | apply CloneProofs.independent_component | apply CloneProofs.independent_model]; exact H.
+Qed.
+Print Assumptions C11_independent.
+
+(* clone + independence, for components and models (the other kinds are instances of the same two theorems):
+   a mutation of an object of the original leaves the clone unchanged, and one of an object of the clone the original *)
+Theorem C11_clone_independent_component : forall n c c' n' mu,
+  rng 0 n (comp_oids c) -> clone_component all_fixed n c = (c', n') ->
+  (In (mut_target mu) (comp_oids c) -> apply_component mu c' = c') /\
+  (In (mut_target mu) (comp_oids c') -> apply_component mu c = c).
+Proof.
+  intros n c c' n' mu Ho Hc. apply CloneProofs.clone_component_fresh in Hc; [|reflexivity]. destruct Hc as (_ & Hn & _). split; intros H.
+  - apply CloneProofs.independent_component. exact (C11_clone_disjoint n n' _ _ Ho Hn _ H).
+  - apply CloneProofs.independent_component. intros H'. exact (C11_clone_disjoint n n' _ _ Ho Hn _ H' H).
+Qed.
+Print Assumptions C11_clone_independent_component.
+
+Theorem C11_clone_independent_model : forall ext n m m' n' mu,
+  rng 0 n (model_oids m) -> clone_model all_fixed ext n m = Some (m', n') ->
+  (In (mut_target mu) (model_oids m) -> apply_model mu m' = m') /\
+  (In (mut_target mu) (model_oids m') -> apply_model mu m = m).
+Proof.
+  intros ext n m m' n' mu Ho Hc. apply CloneProofs.clone_model_fresh in Hc; [|reflexivity]. destruct Hc as (_ & Hn). split; intros H.
+  - apply CloneProofs.independent_model. exact (C11_clone_disjoint n n' _ _ Ho Hn _ H).
+  - apply CloneProofs.independent_model. intros H'. exact (C11_clone_disjoint n n' _ _ Ho Hn _ H' H).
+Qed.
+Print Assumptions C11_clone_independent_model.
+
+(* pinned tree (rows 14 / 30): the clone holds the ImportSource OBJECT of the original; setUrl on the original's
+   import source changes the content of the clone *)
+Theorem C11_clone_shares_isrc_refuted : exists n c mu,
+  rng 0 n (comp_oids c) /\ In (mut_target mu) (comp_oids c) /\
+  let c' := fst (clone_component pinned n c) in
+  In (mut_target mu) (comp_oids c') /\ content_comp (apply_component mu c') <> content_comp c'.
+Proof.
+  exists 2, (Comp 0 None "" "c" "" "" (Some {| is_oid := 1; is_id := ""; is_url := "u"; is_model := None |}) "ref" [] [] []),
+         (MIsrcUrl 1 "other").
+  split; [repeat constructor|]. split; [vm_compute; tauto|]. split; [vm_compute; tauto | vm_compute; discriminate].
+Qed.
+Print Assumptions C11_clone_shares_isrc_refuted.
+
+(* NOT PROVED: clone_independent_partial -- for the PINNED flags (fx_isrc = false) and entities without any import source
+   the clone is fresh and independent as well:
+     forall fx n c c' n', comp_isrcs c = [] -> clone_component fx n c = (c', n') -> rng n n' (comp_oids c').
+   (The freshness lemmas of CloneProofs.v carry the hypothesis fx_isrc fx = true; generalising them to
+   `fx_isrc fx = true \/ no import source` is routine but was not done, because the repaired code is the one modelled
+   by all_fixed.  The correspondence run with C11_FLAGS=10000 observed no sharing outside import sources.) *)
+
+(* ================================================================= 5. equivalences of a cloned model are internal ==== *)
+(* for EVERY model (no well-formedness needed) and every flag setting for which clone returns: each equivalence of a
+   component variable of the clone ends at a component variable of the clone *)
+Theorem C11_model_clone_equivalences_internal : forall fx ext n m m' n',
+  clone_model fx ext n m = Some (m', n') ->
+  forall p c e, In (p, c) (model_vars m') -> In e (v_eqs c) -> exists q cq, In (q, cq) (model_vars m') /\ e_var e = v_oid cq.
+Proof. exact CloneProofs.clone_model_internal. Qed.
+Print Assumptions C11_model_clone_equivalences_internal.
+
+(* getVariableLocatedAt (the walk by indices) and the enumeration used in the statements above agree *)
+Theorem C11_located_iff_enumerated : forall m p v, var_located_at m p = LVar v <-> In (p, v) (model_vars m).
+Proof. exact CloneProofs.var_located_at_in. Qed.
+Print Assumptions C11_located_iff_enumerated.
